@@ -58,7 +58,25 @@ def behaviour(name, framing, r):
 
 
 REQUESTS = [{'dir': REQ, 'fc': 3, 'address': 100, 'count': 3}, {'dir': REQ, 'fc': 16, 'address': 200, 'registers': [11, 22]},
-            {'dir': REQ, 'fc': 1, 'address': 300, 'count': 11}]
+            {'dir': REQ, 'fc': 1, 'address': 300, 'count': 11},
+            {'dir': REQ, 'fc': 23, 'read_address': 10, 'read_count': 6, 'write_address': 40, 'registers': [7, 8]},
+            {'dir': REQ, 'fc': 23, 'read_address': 10, 'read_count': 1, 'write_address': 40, 'registers': [1, 2, 3, 4, 5]},
+            {'dir': REQ, 'fc': 5, 'address': 12, 'value': 0xFF00}, {'dir': REQ, 'fc': 15, 'address': 20, 'bits': [True, False, True] * 5},
+            {'dir': REQ, 'fc': 4, 'address': 0, 'count': 60}, {'dir': REQ, 'fc': 8, 'sub': 0, 'data': [0xA5A5]}]
+
+
+_BIN_SAFE = {}
+
+
+def binary_safe(m):
+    key = repr(m)
+    if key not in _BIN_SAFE:
+        ok = True
+        for msg in (m, P.conformant_reply(P.lazy_regfile(), m)):
+            f = ADU.build('binary', UNIT, S.encode(msg))
+            ok = ok and not any(b in (0x7B, 0x7D) for b in f[1:-1])
+        _BIN_SAFE[key] = ok
+    return _BIN_SAFE[key]
 
 
 def regions(kind, framing, cfg, names):
@@ -298,6 +316,8 @@ def run(run):
                 if run.nviol > 400:
                     break                 # the tree is clearly broken: more witnesses add nothing but run time
                 m = REQUESTS[idx % len(REQUESTS)]
+                if IO.framing_of(kind) == 'binary' and not binary_safe(m):
+                    m = REQUESTS[idx % 3]           # (a binary frame with delimiter bytes in its body cannot be received: recorded finding, judged by C03/C08)
                 warm = (idx // 3) % 2 == 1            # every second script meets a client that has already completed a transaction
                 case = {'client': kind, 'cfg': cfg, 'script': list(names), 'm': m, 'bseed': idx, 'warm': warm}
                 ok = run_script(run, case)
